@@ -533,15 +533,26 @@ def run(ctx):
                      "inputs": [list(t) for t in inputs], "output": list(output), "size_dict": sd,
                      "minimize": OBJECTIVES[oi][0], "cap": 2, "search_outer": True, "oi": oi,
                      "entry": "function", "timeout": 60})
-    jobs.append({"id": "parse", "kind": "parse", "inputs": [], "output": [], "size_dict": {},
-                 "minimize": "combo-256"})
-    jobs.append({"id": "parse2", "kind": "parse", "inputs": [], "output": [], "size_dict": {},
-                 "minimize": "limit-3"})
+    # regression corpus (runs every time): objective strings that must survive the round trip
+    # scorer -> get_dynamic_programming_minimize() -> parse_minimize_for_optimal
+    parse_ids = []
+    cdir = os.path.join(os.path.dirname(os.path.dirname(os.path.dirname(HERE))), "corpus", PROP)
+    strings = ["combo-256", "limit-3"]
+    if os.path.isdir(cdir):
+        for fn in sorted(os.listdir(cdir)):
+            if fn.endswith(".json"):
+                d = json.load(open(os.path.join(cdir, fn)))
+                if d.get("kind") == "parse":
+                    strings += [m for m in d.get("minimize", []) if m not in strings]
+    for k, mstr in enumerate(strings):
+        parse_ids.append("parse%d" % k)
+        jobs.append({"id": "parse%d" % k, "kind": "parse", "inputs": [], "output": [], "size_dict": {},
+                     "minimize": mstr})
     results = run_worker(jobs, nproc=14)
     ctx.log("implementation runs done: %d jobs in %.1fs" % (len(jobs), time.time() - t0))
 
     # ------------------------------------------------------------------ known finding 16
-    for jid in ("parse", "parse2"):
+    for jid in parse_ids:
         r = results[jid]
         if r.get("error"):
             ctx.fail("parse_minimize_for_optimal rejects the string the scorer emits for subtree "
